@@ -559,13 +559,34 @@ pub fn c04(p: &Params) -> Outcome {
             }
         }
     }
+    // frames whose checksum is 000000 (payload ends with the CRC of everything before it) and
+    // frames whose checksum register passes through zero mid-frame: number 4095 marks them
+    for l in [3usize, 4, 8, 19, 40, 61, 200, 1023] {
+        jobs.push((4095, l));
+        jobs.push((4094, l));
+    }
     let njobs = jobs.len();
     let mut total = par::run_queue(p.workers, njobs, move |i, ctx| {
         let (n, l) = jobs[i];
         let mut rng = Rng::derive(seed, "C04.frame", i as u64);
         let reps = if thorough && n == 0 { 3 } else { 1 };
         for rep in 0..reps {
-            let (f, label) = if n == 0 {
+            let (f, label) = if n >= 4094 {
+                let mut payload = rng.bytes(l);
+                let j = if n == 4095 { l - 3 } else { rng.usize_below(l - 3 + 1) };
+                let mut pre = vec![0xD3u8, ((l >> 8) & 3) as u8, l as u8];
+                pre.extend_from_slice(&payload[..j]);
+                let c = crc::crc24q(&pre);
+                payload[j] = (c >> 16) as u8;
+                payload[j + 1] = (c >> 8) as u8;
+                payload[j + 2] = c as u8;
+                let f = crc::frame(&payload);
+                if n == 4095 {
+                    ctx.count("frames_with_all_zero_checksum");
+                    debug_assert_eq!(&f[f.len() - 3..], &[0, 0, 0]);
+                }
+                (f, if n == 4095 { "zero_checksum".to_string() } else { "register_zero_mid_frame".to_string() })
+            } else if n == 0 {
                 let payload = payload_kind(&mut rng, l, if reps == 1 { 2 } else { rep });
                 let res = if rng.chance(1, 4) { rng.below(64) as u8 } else { 0 };
                 (crc::frame_with_reserved(&payload, res), "synthetic".to_string())
@@ -1096,6 +1117,22 @@ fn c13_check(ctx: &mut Ctx, f: &[u8], suffixes: &[Vec<u8>], label: &'static str)
         g.extend_from_slice(sfx);
         if si > 0 {
             ctx.nontrivial(mix(hash_bytes(f), hash_bytes(sfx)));
+        }
+        // the scanner's view of the same bytes
+        match guard(|| {
+            let (c, fr) = next_msg_frame(&g);
+            (c, fr.map(|x| x.frame_len()))
+        }) {
+            Ok((c, Some(fl))) if c == f.len() && fl == f.len() => {}
+            Ok(other) => {
+                ctx.violation(
+                    format!("C13.scanner_independent_of_suffix|{}", if sfx.is_empty() { "no_suffix" } else { "suffix" }),
+                    "C13.scanner_independent_of_suffix",
+                    format!("next_msg_frame on a valid frame of {} bytes followed by {} bytes returned {:?} instead of delivering the frame at offset 0", f.len(), sfx.len(), other),
+                    replay(sfx),
+                );
+            }
+            Err(_) => ctx.count("panics_left_to_C02"),
         }
         let (a, m) = match attrs_of(&g) {
             Ok(Some(x)) => x,
